@@ -929,6 +929,41 @@ def repeated_ns_spec(rng):
     return spec, root
 
 
+def parts_spec(rng, feat=None):
+    """-> (spec, roots): ONE multi-config file whose parts declare the same task classes with different values (`#small`, `#big`, ...);
+    every part is a configuration of its own (members of a MultiChain, in parameter mode and in name mode)"""
+    feat = {**DEFAULT_FEAT, **(feat or {})}
+    pkg = 'labq_' + ''.join(rng.choice('abcdefghijklmnop') for _ in range(8))
+    kinds = [k for k in feat['data_kinds'] if k not in ('dir_link', 'figure')]
+    load = {'cls': 'Load', 'data_kind': rng.choice(kinds), 'params': [{'name': 'rows', 'access': rng.choice(['args', None])}], 'inputs': []}
+    grp = rng.choice([None, 'g'])
+    if grp:
+        load['group'] = grp
+    agg = {'cls': 'Agg', 'data_kind': rng.choice(kinds), 'params': [{'name': 'w', 'default': 1}],
+           'inputs': [{'form': 'class', 'ref_class': 'Load', 'ref_class_path': f'{pkg}.pipe.Load', 'access': 'index', 'index': 0}]}
+    tasks = [load, agg]
+    if rng.random() < 0.5:
+        tasks.append({'cls': 'Side', 'data_kind': rng.choice(kinds), 'params': [{'name': 'w', 'default': 1}], 'inputs': []})
+    pnames = rng.sample(['small', 'big', 'v2', 'alt', 'x'], rng.randint(2, 4))
+    v = rng.choice([3, 'a', [1, 2]])
+    parts = {}
+    for i, pn in enumerate(pnames):
+        vals = {'rows': v}
+        if rng.random() < 0.5:
+            vals['w'] = rng.choice([1, 2, 3])
+        parts[pn] = {'tasks': [f'{pkg}.pipe.*'], 'values': vals, 'uses': []}
+        if i == 0:
+            parts[pn]['main_part'] = True
+        v = same_type_value(rng, v) if rng.random() < 0.8 else v       # (sometimes two parts are the same computation)
+    fname = 'cfg/pipeline.' + rng.choice(['yaml', 'json'])
+    spec = {'pkg': pkg, 'modules': [{'name': 'pipe', 'package': None, 'tasks': tasks}],
+            'files': {fname: {'multi': True, 'parts': parts}},
+            'context_files': {}, 'placeholders': None, 'fnames': [fname], 'free_ns_words': ['m', 'ab'], 'extra_mounts': []}
+    roots = [{'file': fname, 'part': pn} for pn in pnames]
+    rng.shuffle(roots)
+    return spec, roots
+
+
 def twin_spec(rng, feat=None):
     """-> (spec, roots): roots differ only in which mount gets which value (incl. the swapped assignment)"""
     feat = {**DEFAULT_FEAT, **(feat or {})}
